@@ -45,6 +45,14 @@ func probeMain(spec string) {
 		}
 		spec = "none"
 	}
+	if spec == "pairs" {
+		cases = append(cases, canonicalPairs()...)
+		cases = append(cases, thoroughPairs(vlib.NewPRNG(1).Fork("probe-pairs"), workloads(), 1)...)
+		for s := uint64(2); s <= 9; s++ { // more seeded pairs
+			cases = append(cases, seededPairs(vlib.NewPRNG(s).Fork("probe-pairs"), workloads(), 40, int64(s)*1000, fmt.Sprintf("ps%d-", s))...)
+		}
+		spec = "none"
+	}
 	for _, w := range workloads() {
 		if !w.Runnable {
 			continue
@@ -110,6 +118,9 @@ func probeMain(spec string) {
 	}
 	vlib.Parallel(len(cases), workers, func(i int) {
 		o := execCase(scratch, cases[i], 15*time.Minute)
+		if o.Case.isPair() {
+			o.Case.ParamStr, o.Case.Workload = o.Case.ID, "pair"
+		}
 		l := fmt.Sprintf("%-22s %-34s %-28s %-9s %6.1fs k=%d d2h=%d B=%d %s %s", o.Case.Workload, o.Case.ParamStr, o.Case.Class, o.Verdict, o.Dur.Seconds(),
 			o.Trace["kernels_launched"], o.Trace["d2h_started"], o.Trace["d2h_bytes_dma"], o.Symptom, trimTo(strings.ReplaceAll(o.Detail, "\n", " "), 140))
 		mu.Lock()
